@@ -7,6 +7,8 @@
 package hsms
 
 import (
+	"net"
+
 	"github.com/arloliu/go-secs/v2/internal/wire"
 	"github.com/arloliu/go-secs/v2/secs2"
 )
@@ -345,12 +347,14 @@ func zzRet[T any](name string) T { panic("spec only") }
 //@ func (*connection).writeFrame
 //@ nosafety nil-deref nil-iface
 //@ requires c != nil && e != nil && msg != nil
-//@ emits hsms.(transport).Write, hsms.(*ConnectionMetrics).incDataMsgSend, hsms.(*connection).dropNotSelected, hsms.(*ConnectionMetrics).incDataMsgDropNotSelected, hsms.(*connection).TCPDown, IsSelected:true, IsSelected:false
+//@ emits hsms.(transport).Write, hsms.(*ConnectionMetrics).incDataMsgSend, hsms.(*connection).dropNotSelected, hsms.(*ConnectionMetrics).incDataMsgDropNotSelected, hsms.(*connection).TCPDown, IsSelected:true, IsSelected:false, hsms.(*epoch).liveConn
 //@ ensures [gate]  specIsData(msg) && zzCalls("IsSelected:false") > 0 ==>
 //@                 zzCalls("hsms.(transport).Write") == 0 && result == ErrNotSelectedState && zzCalls("hsms.(*connection).dropNotSelected") == 1
 //@ ensures [dropm] zzCalls("hsms.(*ConnectionMetrics).incDataMsgDropNotSelected") == zzCalls("hsms.(*connection).dropNotSelected")
 //@ ensures [ctl]   !specIsData(msg) ==> zzCalls("hsms.(*connection).dropNotSelected") == 0 && zzCalls("hsms.(*ConnectionMetrics).incDataMsgSend") == 0
 //@ ensures [once]  zzCalls("hsms.(transport).Write") <= 1
+//@ ensures [pin]   zzCalls("hsms.(transport).Write") == 1 ==> zzCalls("hsms.(*epoch).liveConn") == 1 && zzRecv[*epoch]("hsms.(*epoch).liveConn") == e &&
+//@                 zzArg[net.Conn]("hsms.(transport).Write", 1) == zzRet[net.Conn]("hsms.(*epoch).liveConn") && zzRet[net.Conn]("hsms.(*epoch).liveConn") != nil
 //@ ensures [ok]    result == nil ==> zzCalls("hsms.(transport).Write") == 1
 //@ ensures [sent]  zzCalls("hsms.(*ConnectionMetrics).incDataMsgSend") == 1 ==> specIsData(msg) && result == nil && zzCalls("hsms.(transport).Write") == 1
 //@ ensures [cnt]   specIsData(msg) && result == nil ==> zzCalls("hsms.(*ConnectionMetrics).incDataMsgSend") == 1
@@ -372,6 +376,7 @@ func specIsRejectErr(err error) bool { _, ok := err.(*RejectError); return ok }
 //@ ensures [inflight] zzCalls("hsms.(*ConnectionMetrics).incDataMsgInflight") == zzCalls("hsms.(*ConnectionMetrics).decDataMsgInflight") &&
 //@                    zzCalls("hsms.(*ConnectionMetrics).incDataMsgInflight") <= 1
 //@ ensures [inflightw] zzCalls("hsms.(*ConnectionMetrics).incDataMsgInflight") == 1 ==> zzCalls("hsms.(*ConnectionMetrics).incDataMsgSend") == 1 && specIsData(msg)
+//@ ensures [oneload]  zzCalls("atomic.Load:cur") == 1
 //@ ensures [dereg]    zzCalls("hsms.(*replyRegistry).register") == zzCalls("hsms.(*replyRegistry).deregister") && zzCalls("hsms.(*replyRegistry).register") <= 1
 //@ ensures [ctl]      !specIsData(msg) ==> zzCalls("hsms.(*ConnectionMetrics).incDataMsgSend") == 0 && zzCalls("hsms.(*ConnectionMetrics).incDataMsgErr") == 0 &&
 //@                    zzCalls("hsms.(*ConnectionMetrics).incDataMsgInflight") == 0 && zzCalls("hsms.(*ConnectionMetrics).incDataMsgDropNotSelected") == 0
@@ -510,6 +515,7 @@ func specRealMsg(m Message) bool {
 func zzChanInv_replyResult(v replyResult) bool { return v.err != nil || specRealMsg(v.msg) }
 
 func zzArg[T any](name string, i int) T { panic("spec only") }
+func zzRecv[T any](name string) T       { panic("spec only") }
 
 //@ func (replyRegistry).route
 //@ nosafety nil-deref nil-iface
